@@ -20,7 +20,7 @@ pub const TEXT_WORDS: &[&str] = &[
 pub const PUNCT: &[&str] = &[",", ".", ";", "!", ":", "(", ")", "'", "/", "&", "%", "*", "+", "?", "|", "-", "…", "—", ">", "="];
 pub const ESCAPED: &[char] = &['@', '#', '~', '{', '}', '\\', '[', '-', '>', '=', 'é', 'a', '|', '%'];
 pub const TEXT_NUMS: &[&str] = &["2", "350", "10", "1", "45", "\u{2212}5", "±2", "\u{2212}18"];
-pub const UNITS: &[&str] = &["g", "kg", "ml", "l", "cup", "cups", "tsp", "tbsp", "oz", "lb", "bag", "cloves", "big pinch", "fl oz", "L", "grams", "EL", "Pkg"];
+pub const UNITS: &[&str] = &["g", "kg", "ml", "l", "cup", "cups", "tsp", "tbsp", "oz", "lb", "bag", "cloves", "big pinch", "fl oz", "L", "grams", "EL", "Pkg", "tsp.", "fl. oz."];
 pub const TIME_UNITS: &[&str] = &["min", "minutes", "h", "hours", "s", "sec", "d", "day", "secs", "mins", "minute", "hour", "seconds", "days"];
 pub const TEXT_VALUES: &[&str] = &["a pinch", "some", "to taste", "handful", "a dash", "half a", "plenty", "one or two", "1/0-x", "1/2-some", "2-x"];
 pub const INLINE_UNITS: &[&str] = &["ºC", "°F", "kg", "ml", "C", "minutes"];
@@ -29,7 +29,7 @@ pub const META_KEYS: &[&str] = &[
     "note", "origin", "my key", "wine pairing", "x", "Kitchen", "season", "equipment notes", "clé", "rating", "k1", "k2", "k3", "diet", "cuisine", "difficulty",
     "image", "nota bene", "[mode", "[duplicate", "define]", "[x",
 ];
-pub const META_VALUES: &[&str] = &["value", "a longer value", "https://example.org/a?b=c", "1", "yes: no", "Ünïcode ✓", "it's \"quoted\"", "a, b, c", "3.5 stars", "steps", "ref", "text"];
+pub const META_VALUES: &[&str] = &["value", "a longer value", "https://example.org/a?b=c", "1", "yes: no", "Ünïcode ✓", "it's \"quoted\"", "a, b, c", "3.5 stars", "steps", "ref", "text", "serve  cold", "a  |  b"];
 pub const SECTION_NAMES: &[&str] = &["Dough", "Filling", "To serve", "Step 2 prep", "Crème", "sauce & sides"];
 pub const STEP_LINES: &[&str] = &[">> note: remember the oven", ">> [optional: add more of it", ">> see note [a]: later", ">> wine pairing: red", ">> my key : spaced out", ">>x:y"];
 pub const TEXT_MODE_COMPONENTS: &[&str] = &["@salt{1%tsp}(flaky, if possible)", "#pan{}(big)", "@olive oil{2%tbsp}", "@&salt{}", "@water{1/2%l}(cold)", "#bowl", "@flour{=200%g}", "#&pan(hot)"];
@@ -451,7 +451,8 @@ impl Builder {
         if matches!(r.val, RawVal::NumText(_)) && ingredient && unit.is_none() {
             unit = Some("tbsp".to_string());
         }
-        let lock = r.lock && ingredient && !value.is_text() && self.ext;
+        // (the lock is core syntax: it works without any extension)
+        let lock = r.lock && ingredient && !value.is_text();
         // blank separator (`1 kg`): Ext, numeric value, unit present and starting with a letter
         let blank_sep = self.ext && r.blank_sep && !value.is_text() && unit.as_ref().is_some_and(|u| u.chars().next().unwrap().is_alphabetic());
         if !ingredient {
@@ -523,7 +524,7 @@ impl Builder {
                 let d = self.last_def(cookware, &name).expect("definition exists");
                 let inheritable = d.mods & (M_HIDDEN | M_OPT | if cookware { 0 } else { M_RECIPE });
                 // written modifiers: `&` (unless the mode makes it implicit) plus a subset of the inheritable ones
-                let explicit_amp = !(implicit_mode || (self.dup_ref));
+                let explicit_amp = !(implicit_mode || (self.dup_ref)) || (!strict && r.mods & 24 == 24);
                 mods = if explicit_amp { M_REF } else { 0 };
                 if r.mods & 2 != 0 {
                     mods |= inheritable & M_HIDDEN;
